@@ -13,6 +13,16 @@ Theorem renormalize_keeps_user_meaning : forall L v,
 Proof. exact Proofs.renormalize_keeps_user_meaning. Qed.
 Print Assumptions renormalize_keeps_user_meaning.
 
+(* PINNING an axis (min = default = max): rebaseTent leaves at most the always-on delta set, scaled by the tent's value at the pin --
+   for every tent shape, on either side of the pin, clipped or not; a pinned axis therefore disappears from the variation data *)
+Theorem rebase_pin : forall t L sols, no_straddle t -> amin L == adef L -> amax L == adef L ->
+  rebaseTent t L = Ok sols ->
+  Forall (fun s : sol => snd s = None) sols /\ sum_fst sols == tentval t (adef L).
+Proof. exact Proofs.rebase_pin. Qed.
+Print Assumptions rebase_pin.
+Example rebase_pin_example : rebaseTent (0, 1, 1) (mkLim (1 # 2) (1 # 2) (1 # 2) 1 1) = Ok [(1 # 2, None)].
+Proof. vm_compute. reflexivity. Qed.
+
 (* non-vacuity: wght 100-400-900 restricted to 100:700:900 (normalised -1, 0.6, 1), a master at 250 (normalised -0.5) *)
 Example user_meaning_example :
   renormalizeValue (mkLim (-1) (6 # 10) 1 300 500) (- (1 # 2)) == - (450 # 600).
